@@ -1,7 +1,27 @@
 """Static texts for MANIFEST.json (kept next to the plan so they stay in step)."""
 _STORE_NOTE = ("Trusted: SimPy kernel; the ShadowStore reference model (fsmon/shadow.py); hooked reads of "
                "items/ready_items/reserved_items only for comparison. Sampled, not exhaustive, except the E2 scopes listed in the evidence.")
+_FN = """Trusted: SimPy kernel; the factory ledger (fsmon/oracles/factory.py) and ShadowStores; owner attribution of processes via generator frames. Sampled model space (random templates), not exhaustive. Conveyor out-edges of non-blocking nodes are excluded from the generated models (can_put is not implemented for conveyors: known finding)."""
 TEXT = {
+    "C03": {"engine": "E3", "design_ref": "4/C03", "technique": "runtime monitoring: item ledger state machine over put/get/pack/unpack/discard events + independent 'node really holds it' check at end of instant",
+            "level": "Held on every monitored factory run: each flow item makes only legal transitions, is referenced by the node the ledger places it in at every end of instant, counters match, and finite drainable models end with every item received or discarded.", "note": _FN},
+    "C08": {"engine": "E3", "design_ref": "4/C08", "technique": "runtime monitoring: node ledger (pull / delay draw / first offer / push per unit) with exact virtual-time equality",
+            "level": "Held on every monitored unit of work: held units <= work_capacity, delay drawn once in the pull instant, first downstream offer exactly at pull + delay (combiner: within [gather+d, max(gather, worker free)+d]).", "note": _FN},
+    "C09": {"engine": "E3", "design_ref": "4/C09", "technique": "runtime monitoring: discard hook on the node counters + end-of-instant 'still holds a finished unit' oracle",
+            "level": "Held on every monitored run: blocking nodes never move the discard counter; non-blocking nodes never hold a finished unit across an instant and never drop while a permitted out-edge has room.", "note": _FN},
+    "C10": {"engine": "E3", "design_ref": "4/C10", "technique": "runtime monitoring: end-of-instant stranded-work oracle (available item vs free worker, finished unit vs room, unused / leaked reservations) with persistence margin",
+            "level": "Held at every end of instant of every monitored run, plus quiescence after finite input for drainable models.", "note": _FN},
+    "C11": {"engine": "E1+E3", "design_ref": "4/C11", "technique": "runtime monitoring: probe oracle (can_put/can_get vs a reservation issued in the same state), ideal buffer model for put+delay",
+            "level": "Held on every probe and every buffered item observed.", "note": _STORE_NOTE},
+    "C15": {"engine": "E3", "design_ref": "4/C15", "technique": "runtime monitoring: observed first-attempt / routing sequences vs policy reference, consultation counting of wrapped selectors",
+            "level": "Held on every monitored node: ROUND_ROBIN cyclic, constant obeyed, selector consulted once per item and obeyed, FIRST_AVAILABLE never skips a granted lower-index edge, recorded history equals routing.", "note": _FN},
+    "C16": {"engine": "E3", "design_ref": "4/C16", "technique": "runtime monitoring: provenance ledger + observing list behind Pallet.items",
+            "level": "Held on every pallet put by a combiner and every pallet unloaded by a splitter in the monitored runs.", "note": _FN},
+    "C17": {"engine": "E3", "design_ref": "4/C17", "technique": "runtime monitoring: independent integration of processing/blocked/idle intervals from observed pulls, offers and pushes vs reported state times",
+            "level": "Held on every monitored node after finalisation at T (sums, set-up charge, truthfulness within 1e-5*T).", "note": _FN},
+    "C18": {"engine": "E3+E1", "design_ref": "4/C18", "technique": "runtime monitoring: shadow occupancy integral, event-exact counter comparison, cycle-time bounds",
+            "level": "Held on every monitored edge, node and sink.", "note": _FN},
+
     "C01": {"engine": "E1+E2", "design_ref": "4/C01", "technique": "runtime monitoring: shadow-model invariant after every API call and at end of instant",
             "level": "Held on every monitored execution: thousands of generated multi-client histories per store kind with the capacity invariant "
                      "(held + granted space reservations <= capacity, store contents == model) evaluated after every call and a put-must-succeed oracle. "
